@@ -232,7 +232,7 @@ theorem commandChains_ok : ∀ v : Ver, ∀ cmd ∈ [(0 : Int), 1, 2, 3, 4],
      | none => false) = true ∧ sendable cmd = true := by decide
 
 theorem safe_prePresentation20 (m : Msg) : Safe SbufOK (prePresentation20 m) :=
-  Safe.modifySt _ fun s hs => by dsimp only; split <;> exact hs
+  Safe.modifySt _ fun s hs => by split <;> exact hs
 
 theorem safe_wrapMissingPV' {inner : Msg → M Msg} (m : Msg) (hi : Safe SbufOK (inner m)) :
     Safe SbufOK (wrapMissingPV inner m) := by
